@@ -456,19 +456,25 @@ def _random_game(rng, size, plies):
 
 
 def _rand_sep(rng, allow_empty=False):
+    """a separator as the list of its atoms: ('w', char) | ('c', comment body)"""
     k = rng.choice([0, 1, 1, 1, 2, 3]) if allow_empty else rng.choice([1, 1, 1, 2, 3])
     out = []
     for _ in range(k):
         if rng.random() < 0.2:
-            out.append("{" + "".join(rng.choice(COMMENT_CHARS) for _ in range(rng.randint(1, 12))) + "}")
+            out.append(("c", "".join(rng.choice(COMMENT_CHARS) for _ in range(rng.randint(1, 12)))))
         else:
-            out.append(rng.choice(WS))
-    return "".join(out)
+            out.append(("w", rng.choice(WS)))
+    return out
+
+
+def _sep_text(sep):
+    return "".join(a[1] if a[0] == "w" else "{" + a[1] + "}" for a in sep)
 
 
 def _render_game(rng, size, moves, fmt):
-    """the decoration class of the game_moves theorem: tags, then tokens (moves with suffixes, move numbers,
-    result markers, --) separated by non-empty runs of white space / brace comments"""
+    """a member of the decoration class of the game_moves theorem, as structure and as text: tags, then tokens
+    (moves with suffixes, move numbers, result markers, --) separated by non-empty runs of white space / brace comments.
+    Tokens: ('m', move, suffix) | ('n', number) | ('r', a, b) | ('d',)"""
     names = ["Size", "Player1", "Player2", "Date", "Result", "Event", "Komi", "x_9", "T1me"]
     rng.shuffle(names)
     tags = [("Size", str(size))] if rng.random() < 0.8 else []
@@ -480,14 +486,40 @@ def _render_game(rng, size, moves, fmt):
     toks = []
     for i, m in enumerate(moves):
         if i % 2 == 0 and rng.random() < 0.8:
-            toks.append(f"{i // 2 + 1}.")
+            toks.append(("n", i // 2 + 1))
         if rng.random() < 0.03:
-            toks.append("--")
-        toks.append(fmt(m) + "".join(rng.choice("'!?") for _ in range(rng.choice([0, 0, 0, 1, 2]))))
+            toks.append(("d",))
+        toks.append(("m", m, "".join(rng.choice("'!?") for _ in range(rng.choice([0, 0, 0, 1, 2])))))
     if rng.random() < 0.6:
-        toks.append(rng.choice(HALVES) + "-" + rng.choice(HALVES))
-    tail = _rand_sep(rng, True) + "".join(t + _rand_sep(rng, i == len(toks) - 1) for i, t in enumerate(toks))
-    return head + "\n\n" + tail, tags
+        toks.append(("r", rng.choice(HALVES), rng.choice(HALVES)))
+    lead = _rand_sep(rng, True)
+    body = [(t, _rand_sep(rng, i == len(toks) - 1)) for i, t in enumerate(toks)]
+
+    def tok_text(t):
+        return {"m": lambda: fmt(t[1]) + t[2], "n": lambda: f"{t[1]}.", "r": lambda: t[1] + "-" + t[2], "d": lambda: "--"}[t[0]]()
+
+    tail = _sep_text(lead) + "".join(tok_text(t) + _sep_text(sp) for t, sp in body)
+    return head + "\n\n" + tail, tags, lead, body
+
+
+def c_sep(sep):
+    return clist([f"SWs {ord(a[1])}" if a[0] == "w" else f"SCom {cstr(a[1])}" for a in sep])
+
+
+def c_tok(t):
+    if t[0] == "m":
+        return f"TMove {takio.c_move(t[1])} {cstr(t[2])}"
+    if t[0] == "n":
+        return f"TNum {cz(t[1])}"
+    if t[0] == "r":
+        return f"TRes {cstr(t[1])} {cstr(t[2])}"
+    return "TDash"
+
+
+def c_structure(tags, lead, body):
+    ct = clist([f"({cstr(k)}, {cstr(v)})" for k, v in tags])
+    cb = clist([f"({c_tok(t)}, {c_sep(sp)})" for t, sp in body])
+    return f"{ct}, {c_sep(lead)}, {cb}"
 
 
 BAD_TOKENS = ["zz", "a9", "i1", "3a1", "a1>>", "2-0", "1-", "1/2", "{}", "}", "{", "!!", "a1C", "Sa1>", "a1>11", "1/2-1/2", "0-1",
@@ -574,8 +606,9 @@ def _game_texts(run):
     for g in range(n_games):
         size = rng.choice([3, 4, 5, 5, 6, 6, 7, 8])
         ms = _random_game(rng, size, rng.randint(0, 10 if run.quick else 60) if g % 5 else rng.randint(20, 90))
-        text, tags = _render_game(rng, size, ms, ptn.format_move)
-        texts.append(("rendered", text, {"tags": tags, "moves": [takio.j_move(m) for m in ms]}))
+        text, tags, lead, body = _render_game(rng, size, ms, ptn.format_move)
+        texts.append(("rendered", text, {"tags": tags, "moves": [takio.j_move(m) for m in ms],
+                                         "structure": c_structure(tags, lead, body)}))
         for _ in range(2 if run.quick else 1):
             t2 = _malform(rng, text)
             if rng.random() < 0.3:
@@ -587,7 +620,8 @@ def _game_texts(run):
 def _game_cases(run, name, texts, check, shard=25):
     cs = core.Cases(ID, name, HEADER, "str * gobs", check, show=GAME_SHOW, shard=shard)
     for kind, text, obs, extra in texts:
-        cs.add(f"({cstr(text)}, {c_gobs(obs)})", {"kind": kind, "text": text, "impl": j_obs_game(obs), "expected": extra})
+        exp = None if extra is None else {k: v for k, v in extra.items() if k != "structure"}
+        cs.add(f"({cstr(text)}, {c_gobs(obs)})", {"kind": kind, "text": text, "impl": j_obs_game(obs), "expected": exp})
     return cs
 
 
@@ -739,7 +773,7 @@ def correspondence(run):
               "equals the model's result (exhaustive); non-trivial = slides with >= 2 drops",
               [{"move": takio.j_move(allm[700][1]), "text": ptn.format_move(allm[700][1])}], dist, label="moves")
     run.extra["exhaustive_moves"] = len(allm)
-    for meta in failing:
+    for meta in failing[:6]:
         _report_pack(run, cs, meta, "format then parse yields the same move / the text denotes what the standard says",
                      lambda me, h: "move:" + (json.dumps(h["move"], sort_keys=True) if h else f"pack{me['first']}"))
 
@@ -751,7 +785,7 @@ def correspondence(run):
     run.count(len(wild), sum(1 for _, m in wild if m.slides and (sum(m.slides) >= 10 or sum(m.slides) < 0)),
               "random moves outside the universe (coordinates and drops in -40..40, up to 10 drops): format_move text and the parse of it; "
               "non-trivial = pickup printed with >= 2 characters", [{"move": takio.j_move(wild[0][1])}], label="wild")
-    for meta in failing:
+    for meta in failing[:6]:
         _report_pack(run, cs, meta, "format_move / parse_move differ from the model outside the move universe",
                      lambda me, h: "wild:" + (json.dumps(h["move"], sort_keys=True) if h else f"pack{me['first']}"))
 
@@ -800,7 +834,7 @@ def correspondence(run):
         for s, cls in crashes[:5]:
             run.violation("crash:" + s, {"clause": "text that is not a PTN move is refused with the parser's own error",
                                          "input": s, "impl": {"crash": cls}})
-        for meta in failing:
+        for meta in failing[:6]:
             _report_pack(run, cs, meta, "parse_move on grammar-shaped / near-miss text",
                          lambda me, h: "text:" + (h["text"] if h else f"{me['kind']}-pack{me['first']}"))
 
@@ -828,18 +862,44 @@ def correspondence(run):
               "result markers, --, Unicode white space, and on malformed variants: tags (dict order) and moves / BadMove token / "
               "ValueError compared; non-trivial = parsed games with >= 4 moves",
               [{"text": texts[0][1], "impl": j_gobs(texts[0][2])}], kinds, label="games")
-    for meta in real:
+    run.extra["game_disagreements"] = len(real)
+    for meta in real[:8]:
         view = cs.model_view(cs.terms[[m["text"] for m in cs.metas].index(meta["text"])])
         run.violation("game:" + core.hashlib.sha256(meta["text"].encode()).hexdigest()[:16],
                       {"clause": "parsing a PTN game returns its tags and exactly its moves in order / refuses non-moves with BadMove",
                        "input": {"text": meta["text"], "kind": meta["kind"], "expected": meta["expected"]},
                        "impl": meta["impl"], "model_view": view, "reference": _jref_game(ref_game(meta["text"]))})
-    # rendered games must come back exactly as generated (the statement of game_moves, on the implementation)
+    # the rendered texts are the model's own renderer applied to the generated structure (class D of game_moves),
+    # and the implementation returns what the theorem says: the tags and exactly the moves
+    csr = core.Cases(ID, "rendered", HEADER, "list (str * str) * sep * list (tok * sep) * str * gobs",
+                     "fun c => let '(tags, lead, body, text, o) := c in str_eqb (render_game tags lead body) text "
+                     "&& gagree (GameOk tags (moves_of body)) o",
+                     show="fun c => let '(tags, lead, body, text, o) := c in (str_eqb (render_game tags lead body) text, moves_of body)",
+                     shard=25)
     for k, t, o, e in texts:
+        if k == "rendered":
+            csr.add(f"({e['structure']}, {cstr(t)}, {c_gobs(o)})", {"kind": k, "text": t, "impl": j_gobs(o),
+                                                                    "expected": {"tags": e["tags"], "moves": e["moves"]}})
+    failing_r, shard_fail_r, nsr = _run(csr)
+    run.oblige(f"correspondence:rendered ({nsr} shards)", not shard_fail_r, str(shard_fail_r)[:1500])
+    run.count(len(csr), len(csr), "the same rendered texts as structure (tags, separators of white space / comments, tokens): the model's "
+              "render_game yields exactly the text and PTN.parse returns GameOk tags (moves_of body), the right-hand side of game_moves",
+              [], label="rendered")
+    for meta in failing_r[:8]:
+        run.violation("game:" + core.hashlib.sha256(meta["text"].encode()).hexdigest()[:16],
+                      {"clause": "parsing a PTN game returns its tags and exactly its moves in order whatever decoration surrounds them",
+                       "input": {"text": meta["text"], "kind": "rendered", "expected": meta["expected"]}, "impl": meta["impl"],
+                       "model_view": csr.model_view(csr.terms[[m["text"] for m in csr.metas].index(meta["text"])])})
+    # rendered games must come back exactly as generated (the statement of game_moves, on the implementation)
+    shown = 0
+    for k, t, o, e in texts:
+        if shown >= 8:
+            break
         if k == "rendered" and not (o[0] == "GO" and [takio.j_move(m) for m in o[2]] == e["moves"] and o[1] == list(dict(e["tags"]).items())):
             run.violation("game:" + core.hashlib.sha256(t.encode()).hexdigest()[:16],
                           {"clause": "parsing a PTN game returns its tags and exactly its moves in order whatever decoration surrounds them",
-                           "input": {"text": t, "kind": k, "expected": e}, "impl": j_gobs(o)})
+                           "input": {"text": t, "kind": k, "expected": {"tags": e["tags"], "moves": e["moves"]}}, "impl": j_gobs(o)})
+            shown += 1
     run.extra["unspecified_skipped"] = unspec_total
 
 
